@@ -50,6 +50,15 @@ theorem toeplitz_entry (v : List α) (i j : Nat) (hi : i < v.length) (hj : j < v
 omit [Add α] [Mul α] in
 theorem toeplitz_length (v : List α) : (toeplitz v).length = v.length := by simp [toeplitz]
 
+/-- non-vacuity (the docstring examples of the real functions) -/
+example : acorr [(1 : Rat), 2, 3, 4, 3, 4, 2] none = [59, 52, 42, 30, 17, 8, 2] := by decide +kernel
+example : acorr [(1 : Rat), 2, 3, 4, 3, 4, 2] (some 9) = [59, 52, 42, 30, 17, 8, 2, 0, 0, 0] := by
+  decide +kernel
+example : lagMatrix [(1 : Rat), 2, 3, 4] (some 2) = .ok [[25, 18, 11], [18, 13, 8], [11, 8, 5]] := by
+  decide +kernel
+example : lagMatrix [(1 : Rat), 2, 3] (some 3) = .error "ValueError" := by decide +kernel
+example : toeplitz [(1 : Rat), 2, 3] = [[1, 2, 3], [2, 1, 2], [3, 2, 1]] := by decide +kernel
+
 end tables
 
 variable {K : Type} [Field K] [DecidableEq K]
@@ -163,6 +172,7 @@ example : levinson [(1 : Rat), 1/2, 1/4, 1/3] (some 3) = .ok ([1, -1/2, 5/36, -5
 example : levinson [(1 : Rat), 1/2, 1/4, 1/3] (some 2) = .ok ([1, -1/2], 3/4) := by decide +kernel
 example : (299/432 : Rat) = 3/4 - (5/24) ^ 2 / (3/4) := by decide +kernel
 example : levinson [(1 : Rat), 1, 1] (some 2) = .error "ParCorError" := by decide +kernel
+example : levinson [(1 : Rat), 1, 1] (some 1) = .ok ([1, -1], 0) := by decide +kernel
 example : levinson [(2 : Rat), 1] (some 3) = .ok ([1, -3/4, 1/2, -1/4], 5/4) := by decide +kernel
 
 /-! ### lpc.kautocor -/
@@ -264,6 +274,9 @@ example : kcovar [(1 : Rat), 2, 3, 4, 3, 2, 5, 1] (some 2) =
     .ok ([1, -33/577, -567/577], 9730/577) := by decide +kernel
 example : covEnergy [(1 : Rat), -33/577, -567/577] [1, 2, 3, 4, 3, 2, 5, 1] 2 = 9730/577 := by
   decide +kernel
+example : covEnergy [(1 : Rat), -1, 0] [1, 2, 3, 4, 3, 2, 5, 1] 2 = 29 ∧ (9730/577 : Rat) ≤ 29 := by
+  decide +kernel
+example : kcovar [(1 : Rat), 2, 3] (some 3) = .error "ValueError" := by decide +kernel
 example : kcovar [(1 : Rat), 2, 4, 8] (some 1) = .error "ValueError" := by decide +kernel
 example : kcovar [(0 : Rat), 0, 0, 0] (some 1) = .error "ZeroDivisionError" := by decide +kernel
 
